@@ -289,7 +289,27 @@ KF_PARTIAL = 'C17-partial-sync'
 KF_STATUS2 = 'C17-status2-unacked'
 
 
+def py_clean(h):
+    """mirror of Model.clean_hist (compared with the extracted clean0 on every generated history)"""
+    for o in h:
+        if o[0] == 'C' and (0 in o[4:9] or o[9] == 'r'):
+            return False
+        if o[0] == 'T' and o[4] == 0:
+            return False
+    return True
+
+
 def monitor(h, items):
+    """monitor_raw + : a history satisfying the hypothesis of the theorems (clean_hist) must not
+    fail ANY monitor on the real code, known finding or not"""
+    fl = monitor_raw(h, items)
+    if py_clean(h):
+        fl = [(i, k, t + ' [history satisfies clean_hist: the theorems exclude this]' if c else t, None)
+              for i, k, t, c in fl]
+    return fl
+
+
+def monitor_raw(h, items):
     """Property monitors evaluated on the implementation's behaviour.
     Returns list of (op index, kind, text, cause) ; cause = known-finding id or None.
     Histories that supply None for a state value are outside the property (the server never
@@ -530,11 +550,7 @@ def run(tier):
         mism = [i for i, (a, b) in enumerate(zip(impl, model)) if strip_flags(a) != b]
         p = subprocess.run([exe, '--clean'], input='\n'.join(lines) + '\n', capture_output=True, text=True)
         clean = [x == '1' for x in p.stdout.split('\n')[:len(lines)]]
-    # a history satisfying the hypothesis of C17_args_exact / _tx_exact / _belief_sound must not
-    # fail ANY monitor on the real code (known finding or not)
-    for k, m in enumerate(mon):
-        if clean[m[0]] and m[4] is not None:
-            mon[k] = (m[0], m[1], m[2], m[3] + ' [history satisfies clean_hist: the theorems exclude this]', None)
+    clean_diff = [i for i, (h, c) in enumerate(zip(hs, clean)) if model is not None and py_clean(h) != c]
 
     lap('monitors')
     # ---- multi-tenant path: monitors only
@@ -614,6 +630,8 @@ def run(tier):
                           {'broken': 'correspondence C17 Model.step vs compiler_pool pool.py/worker.py',
                            'case': enc(small), 'impl_result': one_impl(small),
                            'model_result': lib.run_model(exe, [enc(small)])[0], 'disagreements': len(mism)}, False)
+        if clean_diff:
+            rep.violation('harness py_clean differs from Model.clean_hist', {'broken': 'harness', 'case': lines[clean_diff[0]]}, False)
         if coq_diff:
             rep.violation('extracted model disagrees with vm_compute inside Coq',
                           {'broken': 'extraction', 'case': lines[coq_diff[0]]}, False)
